@@ -57,6 +57,7 @@ package db
 // replacing the row of a height: with history on, the old row is copied to the history table first; then the old row is
 // deleted by its certificate id; both through the querier given (the caller's transaction); the first failure stops it
 //@ func (a *AggSenderSQLStorage) moveCertificateToHistoryOrDelete (a, tx, certificate)
+//@   threads tx
 //@   props C13 C02
 //@   sqltext "INSERT INTO certificate_info_history SELECT * FROM certificate_info WHERE height = $1;"
 //@   requires a != nil && a.logger != nil && tx != nil && certificate != nil
@@ -80,6 +81,7 @@ package db
 //@   ensures stmtFail == old(stmtFail) + ite(result == nil, 0, 1)
 
 //@ func (a *AggSenderSQLStorage) SaveLastSentCertificate (a, ctx, certificate)
+//@   threads tx
 //@   props C13 C02
 //@   requires a != nil && a.db != nil && a.logger != nil
 //@   requires lastTx < heapTop
@@ -151,6 +153,7 @@ package db
 //@   ensures result1 == nil ==> statusUpdates == old(statusUpdates) + 1 && lastStatusUpdateStatus == unbox(args[0], agglayertypes.CertificateStatus) && lastStatusUpdateAt == unbox(args[1], uint32)
 //@   ensures result1 != nil ==> statusUpdates == old(statusUpdates) && lastStatusUpdateStatus == old(lastStatusUpdateStatus) && lastStatusUpdateAt == old(lastStatusUpdateAt)
 //@ func (a *AggSenderSQLStorage) UpdateCertificateStatus (a, ctx, certificateID, newStatus, updatedAt)
+//@   threads tx
 //@   props C02 C13
 //@   sqltext "UPDATE certificate_info SET status = $1, updated_at = $2 WHERE certificate_id = $3;"
 //@   requires a != nil && a.db != nil && a.logger != nil
@@ -161,6 +164,7 @@ package db
 //@   ensures[the-statement-goes-through-its-transaction] writesOutsideTx == old(writesOutsideTx)
 //@   ensures[at-most-one-statement] statusUpdates <= old(statusUpdates) + 1
 //@ func deleteCertificate (tx, certificateID)
+//@   threads tx
 //@   props C02 C13
 //@   sqltext "DELETE FROM certificate_info WHERE certificate_id = $1;"
 //@   requires tx != nil
